@@ -3,7 +3,7 @@
 // against the Lean model.
 //
 // ops (one per line, '#' comments):
-//   seed <s> | inject <per-mille> | trace <0|1>
+//   seed <s> | inject <per-mille> | trace <0|1> | cores <k> (what hardware_concurrency() reports; 0 = real)
 //   disp <d> <n>            create dispatcher d with n workers (0 = library default)
 //   single <d> <0|1>
 //   queue <d> <prio>        createQueue -> serial queue number 1,2,... of d
@@ -34,8 +34,18 @@
 #include <string>
 #include <thread>
 #include <vector>
+#include <unistd.h>
 
 using namespace mustache;
+
+// Interposed over libstdc++'s definition (the harness executable is searched first): lets a script choose
+// what the library's "automatic" worker count sees, e.g. `cores 1` gives a dispatcher with zero workers.
+static unsigned g_fake_cores = 0;
+unsigned std::thread::hardware_concurrency() noexcept {
+    if (g_fake_cores != 0) return g_fake_cores;
+    const long n = sysconf(_SC_NPROCESSORS_ONLN);
+    return n > 0 ? static_cast<unsigned>(n) : 1u;
+}
 
 namespace {
 
@@ -133,6 +143,8 @@ void maybePreempt(unsigned salt) {
 void logEvent(int d, int point, unsigned th, long arg, const char* name) {
     if (!g_trace_on) return;
     std::lock_guard<std::mutex> l{g_trace_mutex};
+    // consecutive iterations of the waiter's spin carry no information (the model's spinRetry is idempotent)
+    if (point == mustache::verif::kWaiterSpin && !g_trace.empty() && g_trace.back().point == point && g_trace.back().d == d) return;
     g_trace.push_back(TraceRec{d, point, th, arg, name});
 }
 
@@ -183,7 +195,7 @@ void taskBody(Disp* D, TaskRec* T, ThreadId tid_arg) {
             if (other->d->currentThreadId().toInt() != 0u) D->foreign.fetch_add(1);
         }
     }
-    if (tid != 0u) D->active_on_workers.fetch_add(1);
+    if (tid != 0u && T->queue == 0) D->active_on_workers.fetch_add(1); // parallel tasks inside their body on a worker
     if (T->queue > 0) {
         if (D->in_queue[T->queue]->fetch_add(1) != 0) D->overlap.fetch_add(1);
         const int64_t prev = D->last_started[T->queue]->exchange(static_cast<int64_t>(T->id));
@@ -197,7 +209,7 @@ void taskBody(Disp* D, TaskRec* T, ThreadId tid_arg) {
     }
     T->payload = static_cast<uint64_t>(T->id) * 7u + 1u;
     if (T->queue > 0) D->in_queue[T->queue]->fetch_sub(1);
-    if (tid != 0u) D->active_on_workers.fetch_sub(1);
+    if (tid != 0u && T->queue == 0) D->active_on_workers.fetch_sub(1);
     if (tid <= D->workers) D->busy_tid[tid]->store(0);
     T->ended.fetch_add(1);
 }
@@ -237,8 +249,15 @@ void submitOne(Disp& D, int queue, int gate_id, uint32_t work) {
     if (!g_trace_on) D.submitted.fetch_add(1);
 }
 
+void openAllGates() {
+    std::vector<int> ids;
+    { std::lock_guard<std::mutex> l{g_gates_mutex}; for (auto& kv : g_gates) ids.push_back(kv.first); }
+    for (int g : ids) openGate(g);
+}
+
 void destroyDisp(Disp& D) {
     if (D.destroyed) return;
+    openAllGates(); // a task parked at a gate would make the join below hang for a reason of the script's own making
     tl_cur_disp = D.index;
     D.queues.clear();
     D.d.reset();
@@ -248,15 +267,17 @@ void destroyDisp(Disp& D) {
 
 void finalLine(Disp& D) {
     uint32_t once = 0, multi = 0, never = 0, unfinished = 0, after = 0;
+    std::string never_ids;
     for (auto& T : D.tasks) {
         const uint32_t b = T.begun.load();
-        if (b == 0) ++never; else if (b == 1) ++once; else ++multi;
+        if (b == 0) { ++never; never_ids += (never_ids.empty() ? "" : ",") + std::to_string(T.id); }
+        else if (b == 1) ++once; else ++multi;
         if (b != T.ended.load()) ++unfinished;
         if (D.destroyed && b > 0 && T.begin_stamp.load() > D.destroy_return_stamp) ++after;
     }
-    std::printf("O final %d submitted=%zu once=%u multi=%u never=%u unfinished=%u overlap=%u order=%u badtid=%u duptid=%u tidmismatch=%u foreign=%u ran_after_destroy=%u\n",
+    std::printf("O final %d submitted=%zu once=%u multi=%u never=%u unfinished=%u overlap=%u order=%u badtid=%u duptid=%u tidmismatch=%u foreign=%u ran_after_destroy=%u never_ids=%s\n",
         D.index, D.tasks.size(), once, multi, never, unfinished, D.overlap.load(), D.order_viol.load(), D.badtid.load(),
-        D.duptid.load(), D.tidmismatch.load(), D.foreign.load(), after);
+        D.duptid.load(), D.tidmismatch.load(), D.foreign.load(), after, never_ids.empty() ? "-" : never_ids.c_str());
 }
 
 } // namespace
@@ -271,6 +292,7 @@ int main() {
         std::string op;
         in >> op;
         if (op == "seed") { in >> g_seed; std::printf("O seed\n"); }
+        else if (op == "cores") { in >> g_fake_cores; std::printf("O cores %u -> %u\n", g_fake_cores, Dispatcher::maxThreadCount()); }
         else if (op == "inject") { in >> g_inject; std::printf("O inject\n"); }
         else if (op == "trace") {
             int on = 1; in >> on; g_trace_on = on != 0;
@@ -292,7 +314,18 @@ int main() {
             { std::lock_guard<std::mutex> l{g_trace_mutex}; g_creating = d; }
             tl_cur_disp = d;
             D.d.reset(new Dispatcher{n});
-            { std::lock_guard<std::mutex> l{g_trace_mutex}; g_creating = -1; }
+            // worker threads may start late: keep attributing unknown dispatcher-state pointers to `d`
+            // until the first worker has reported (a dispatcher without workers is identified by its
+            // first event on this thread)
+            for (;;) {
+                {
+                    std::lock_guard<std::mutex> l{g_trace_mutex};
+                    bool known = expect == 0u || mustache::verif::sched_hook != &schedHook;
+                    for (const auto& kv : g_ptr_to_disp) known = known || kv.second == d;
+                    if (known) { g_creating = -1; break; }
+                }
+                std::this_thread::yield();
+            }
             std::printf("O disp %d requested=%u count_ok=%d self_tid=%u\n", d, n, D.d->threadCount() == expect ? 1 : 0,
                 D.d->currentThreadId().toInt());
         }
